@@ -3,7 +3,9 @@
 payload: {'libs': [lib, ...]};  lib = {'cfg': {cls, mol, d, r, cap, yinv, yover}, 'reads': [readspec, ...],
                                         'retag': bool, 'bam': bool}
 readspec = {name, sample, umi, contig, r1: {start, rev, seq, cigar} | None, r2: {...} | None, dup, qcfail, rc, mx}
-cfg may carry 'eject' (check_eject_every, default None) and 'cache' (Molecule cache_size) for the truth stream
+cfg may carry 'eject' (check_eject_every, default None) and 'cache' (Molecule cache_size) for the truth stream,
+'pool' (pooling_method, default 1) and 'efm' (every_fragment_as_molecule, default False);
+lib may carry 'duo' = [setting, setting] + 'schedule': two interleaved iterators in one process (run_duo)
 result per lib: {'frags': [abstraction of every offered fragment, arrival order], 'pass1': [molecule, ...],
                  'pass2': [...] | None, 'bam': {...} | None}  or {'error': 'Type: msg'}
 The abstraction read -> abstract fragment uses the implementation's own accessors (sample, strand,
@@ -121,7 +123,9 @@ def build_iterator(pairs, cfg, registry, fargs, margs):
     from singlecellmultiomics.molecule import MoleculeIterator
     fcls, mcls = classes(cfg)
     return MoleculeIterator(pairs, molecule_class=mcls, fragment_class=recording(fcls, registry),
-                            check_eject_every=cfg.get('eject'), perform_qflag=False, pooling_method=1,
+                            check_eject_every=cfg.get('eject'), perform_qflag=False,
+                            pooling_method=(0 if cfg.get('pool', 1) == 0 else 1),
+                            every_fragment_as_molecule=bool(cfg.get('efm')),
                             yield_invalid=cfg['yinv'], yield_overflow=cfg['yover'],
                             fragment_class_args=fargs, molecule_class_args=margs)
 
@@ -151,6 +155,66 @@ def run_sweep(lib, sweep):
         except BaseException as e:
             out.append({'error': '%s: %s' % (type(e).__name__, e)})
     return out
+
+
+def run_duo(lib, duo, schedule):
+    """two-iterator history: TWO MoleculeIterators with different settings (umi_hamming_distance, pooling_method, cap)
+    over the same library (each its own read objects and its own argument dicts) advance in ONE process, interleaved
+    fragment by fragment: iterator k may take its next read pair only when `schedule` gives it the turn (each runs in
+    its own thread, the source generators hand the turn over).  Each must behave as if it ran alone."""
+    import threading
+    cfg = lib['cfg']
+    h = header()
+    cond = threading.Condition()
+    state = {'turn': 0, 'done': [False, False], 'pos': 0}
+    sched = list(schedule) or [0, 1]
+
+    def next_turn():
+        state['pos'] += 1
+        t = sched[state['pos'] % len(sched)]
+        if state['done'][t]:
+            t = 1 - t
+        state['turn'] = t
+
+    def source(k, pairs):
+        for p in pairs:
+            with cond:
+                while state['turn'] != k and not state['done'][1 - k]:
+                    cond.wait(timeout=5)
+            yield p
+            with cond:
+                next_turn()
+                cond.notify_all()
+
+    out = [None, None]
+
+    def work(k, setting):
+        c = dict(cfg, **setting)
+        try:
+            pairs = [mk_pair(h, s_) for s_ in lib['reads']]
+            dups = [any(r.is_duplicate for r in p if r is not None) for p in pairs]
+            registry = []
+            fargs = {'umi_hamming_distance': c['d'], 'assignment_radius': c['r']}
+            margs = {}
+            if c.get('cap') is not None:
+                margs['max_associated_fragments'] = c['cap']
+            it = build_iterator(source(k, pairs), c, registry, fargs, margs)
+            molecules = list(it)
+            frags = [abstract(f, c, dups[i]) for i, f in enumerate(registry)]
+            out[k] = {'frags': frags, 'pass1': [describe(m) for m in molecules], 'pass2': None, 'bam': None}
+        except BaseException as e:
+            out[k] = {'error': '%s: %s' % (type(e).__name__, e)}
+        finally:
+            with cond:
+                state['done'][k] = True
+                state['turn'] = 1 - k
+                cond.notify_all()
+    ths = [threading.Thread(target=work, args=(k, duo[k])) for k in (0, 1)]
+    for t in ths:
+        t.start()
+    for t in ths:
+        t.join(timeout=600)
+    return [o if o is not None else {'error': 'RuntimeError: harness: iterator thread did not finish'} for o in out]
 
 
 def run_pass(pairs, cfg, keep=None):
@@ -194,6 +258,8 @@ def bam_roundtrip(molecules, cfg, h, n):
 
 def one(lib, n):
     cfg = lib['cfg']
+    if lib.get('history') and lib['history'].get('duo'):
+        return run_duo(lib, lib['history']['duo'], lib['history'].get('schedule'))[lib['history']['index']]
     if lib.get('history'):
         return run_sweep(lib, lib['history']['sweep'])[lib['history']['index']]
     h = header()
@@ -205,6 +271,15 @@ def one(lib, n):
         res['bam'] = bam_roundtrip(keep, cfg, h, n)
     if lib.get('sweep'):
         res['sweep'] = run_sweep(lib, lib['sweep'])
+    if lib.get('duo'):
+        res['duo'] = run_duo(lib, lib['duo'], lib.get('schedule'))
+    if lib.get('both'):
+        # the same library through the OTHER pooling method (fresh read objects)
+        c2 = dict(cfg, pool=(1 if cfg.get('pool', 1) == 0 else 0))
+        try:
+            res['other'] = run_pass([mk_pair(h, s) for s in lib['reads']], c2)[1]
+        except BaseException as e:
+            res['other'] = {'error': '%s: %s' % (type(e).__name__, e)}
     if lib.get('retag'):
         f2, m2 = run_pass(pairs, cfg)
         res['pass2'] = m2
